@@ -37,14 +37,14 @@ var rules = []*Rule{
 	{ID: "R17", Title: "OFFSET-ASSIGNMENT", Props: []string{"C02", "C01"}, Run: func(p *Prog) []Ob { return append(ruleR17(p), p.tailSurvivedObligations()...) }},
 	{ID: "R5", Title: "INUSE: the unload refcount protocol", Props: []string{"C08"}, Run: ruleR5},
 	{ID: "R18", Title: "SNAPSHOT-REVALIDATION", Props: []string{"C08", "C12"}, Run: func(p *Prog) []Ob { return append(ruleR18(p), p.deleteSerialised()...) }},
-	{ID: "R20", Title: "READER-LIFETIME: destructive segment operations exclude readers", Props: []string{"C08"}, Run: ruleR20},
+	{ID: "R20", Title: "READER-LIFETIME: destructive segment operations exclude readers", Props: []string{"C08", "C03", "C12"}, Run: func(p *Prog) []Ob { return append(ruleR20(p), p.closeBeforeReplace()...) }},
 	{ID: "R21", Title: "HEAD-SCAN-BOUND", Props: []string{"C08"}, Run: ruleR21},
 	{ID: "R9", Title: "FORMAT-TABLES: encoder = decoder = documented layout", Props: []string{"C13", "C17", "C11", "C09"}, Run: ruleR9},
 	{ID: "R24", Title: "USE-AFTER-ERROR: placeholder results of failed calls never reach a success", Props: []string{"C01", "C02", "C03", "C04", "C06", "C07", "C08", "C09", "C10", "C12", "C13", "C20"}, Run: ruleR24},
 	{ID: "R25", Title: "BACKUP-COMPLETENESS", Props: []string{"C20"}, Run: ruleR25},
 	{ID: "R26", Title: "HEAD-INDEX-LIVENESS", Props: []string{"C03", "C08"}, Run: ruleR26},
 	{ID: "R27", Title: "KEPT-READER-NOT-HEAD", Props: []string{"C03"}, Run: ruleR27},
-	{ID: "R28", Title: "GET-EXACT", Props: []string{"C04"}, Run: ruleR28},
+	{ID: "R28", Title: "GET-EXACT and CONSUME-BOUND", Props: []string{"C04", "C03"}, Run: func(p *Prog) []Ob { return append(ruleR28(p), p.consumeBound()...) }},
 	{ID: "R29", Title: "ITEM-DERIVATION", Props: []string{"C10", "C11"}, Run: ruleR29},
 	{ID: "R30", Title: "CLOCK-INDEPENDENCE", Props: []string{"C03", "C04", "C09", "C10", "C13", "C02"}, Run: ruleR30},
 	{ID: "R32", Title: "LAZY-LOG", Props: []string{"C14"}, Run: ruleR32},
